@@ -261,11 +261,37 @@ pub fn valid(name: &str, hyps: &[F], goal: &F) -> Tri {
                 record(name, "VALID", "violated", &st2);
                 return Tri::No(m);
             }
+            // constructive search over the prover-controlled atoms registered by the harness (affine kernel direction)
+            let xs = CEX_UNKNOWNS.with(|x| x.borrow().clone());
+            if !xs.is_empty() {
+                if let Some(cand) = crate::affine::counterexample(hyps, goal, &xs) {
+                    let mut values: HashMap<u32, fq::U256> = HashMap::new();
+                    let mut model = shadow_model(&asserts);
+                    for (k, v) in &cand {
+                        values.insert(*k, *v);
+                        let nm = sx::with(|a| a.vars[*k as usize].name.clone());
+                        model.insert(nm, fq::to_dec(v));
+                    }
+                    let st3 = ctx(|c| c.solvers.check_pinned(&format!("{} [constructed counterexample]", name), &asserts, to, false, Some(&values)));
+                    if let Answer::Sat(_) = st3.answer {
+                        record(name, "VALID", "violated", &st3);
+                        return Tri::No(model);
+                    }
+                }
+            }
             record(name, "VALID", "inconclusive", &st);
             ctx(|c| c.inconclusive.push(format!("{}: solver answered {}", name, s)));
             Tri::Unknown(s.clone())
         }
     }
+}
+
+thread_local! { static CEX_UNKNOWNS: RefCell<std::collections::HashSet<u32>> = RefCell::new(Default::default()); }
+/// Register the prover-controlled atoms (variables) over which a counterexample may be constructed when the solver
+/// cannot decide an accept-implies-relation obligation.
+pub fn set_cex_unknowns(terms: &[sx::Tid]) {
+    let vs: std::collections::HashSet<u32> = terms.iter().filter_map(|t| if let sx::Node::Var(v) = sx::node_of(*t) { Some(v) } else { None }).collect();
+    CEX_UNKNOWNS.with(|x| *x.borrow_mut() = vs);
 }
 
 fn shadow_model(asserts: &[F]) -> HashMap<String, String> {
